@@ -732,6 +732,11 @@ func (e *Enc) callsiteChecks(fr *frame, st *State, callee string, fn *ssa.Functi
 		}
 		env.where = "callsite " + callee + " at " + e.pos(pos)
 		e.v.callsiteHits[con.Key+"/"+cs.Clause.Label]++
+		if cs.UseLemma {
+			t, _ := e.lemmaInstance(env, cs.Clause)
+			st.assume(t)
+			continue
+		}
 		e.obligeClauseNamed(env, st, "callsite", cs.Callee+":"+cs.Clause.Label, cs.Clause, pos)
 	}
 }
@@ -748,6 +753,11 @@ func (e *Enc) sendSiteChecks(fr *frame, st *State, ch, val Value, cond string, p
 		env.vars["m"] = val
 		env.where = "sendsite at " + e.pos(pos)
 		e.v.callsiteHits[con.Key+"/"+cs.Clause.Label]++
+		if cs.UseLemma {
+			t, _ := e.lemmaInstance(env, cs.Clause)
+			st.assume(t)
+			continue
+		}
 		e.obligeClauseNamed(env, st, "sendsite", cs.Callee+":"+cs.Clause.Label, cs.Clause, pos)
 	}
 }
@@ -958,4 +968,59 @@ func (e *Enc) lenientLocals(fr *frame, st *State, env *SpecEnv) {
 		env.vars[name] = v
 		delete(env.ambiguous, name)
 	}
+}
+
+// lemmaInstance evaluates "L(args)" to the formula (hyps => concls) of the
+// separately proved lemma L, with the current state as new state and the
+// function's entry state as old state.
+func (e *Enc) lemmaInstance(env *SpecEnv, c *Clause) (string, bool) {
+	x := c.Expr
+	if x.Op != "call" {
+		e.v.specErrors = append(e.v.specErrors, fmt.Sprintf("%s:%d: lemma application must be L(args)", c.File, c.Line))
+		return "true", false
+	}
+	var lm *Lemma
+	for _, l := range e.v.db.Lemmas {
+		if l.Name == x.Name {
+			lm = l
+		}
+	}
+	if lm == nil || len(lm.Params) != len(x.Args) {
+		e.v.specErrors = append(e.v.specErrors, fmt.Sprintf("%s:%d: unknown lemma %s/%d", c.File, c.Line, x.Name, len(x.Args)))
+		return "true", false
+	}
+	ok := true
+	var res string
+	func() {
+		defer func() {
+			if r := recover(); r != nil {
+				if se, isSpec := r.(specError); isSpec {
+					e.v.specErrors = append(e.v.specErrors, fmt.Sprintf("%s:%d: %s", c.File, c.Line, se.msg))
+					ok = false
+					res = "true"
+					return
+				}
+				panic(r)
+			}
+		}()
+		lenv := *env
+		lenv.pkg = e.v.pkgByPath[lm.Pkg]
+		lenv.vars = map[string]Value{}
+		lenv.bound = nil
+		lenv.where = "lemma " + lm.Name + " applied"
+		for i, p := range lm.Params {
+			t := lenv.resolveType(p.Type)
+			lenv.vars[p.Name] = env.coerce(env.eval(x.Args[i]), t)
+		}
+		var hyps, concls []string
+		for _, h := range lm.Hyps {
+			hyps = append(hyps, lenv.evalBool(h.Expr))
+		}
+		for _, cc := range lm.Concl {
+			concls = append(concls, lenv.evalBool(cc.Expr))
+		}
+		res = implies(and(hyps...), and(concls...))
+	}()
+	e.v.lemmasUsed[lm.Name] = true
+	return res, ok
 }
